@@ -21,6 +21,11 @@ tie    : T-diff.  Every queue class of queues.py, enrdy_queues.py, valrdy_queues
          or full/entry, or enq_ptr/deq_ptr/full) are written into a Coq case; coqc (vm_compute, Lib/QueueCheck.v) replays
          the FIFO specification and the concrete model and returns the histories that disagree.  A disagreeing history is
          truncated and shrunk by re-simulation, re-confirmed in Coq and reported.
+keys   : C17:<file>.<class>:n=<capacity>:construct[:<Exception>]   the class cannot be built at that capacity (plain = clog2(1)==0 -> Bits0)
+         C17:<file>.<class>:n=<capacity>:history[:<deviation>]      a legal offer history on which the ports leave the rules; <deviation> in
+              enq-rdy-low (key without suffix: rdy low although not full, nothing else wrong) | enq-rdy-high | deq-rdy-low | deq-rdy-high |
+              enq-fire-* | deq-fire-* | wrong-msg | deq-from-empty | count | overflow | unclassified  -- one report per class x deviation
+         C17:<file>.<class>:n=<capacity>:model / :exception          ports respect the spec but registers leave the Coq model / simulation raised
 partial: the Bits widths of head/tail/count are not modelled (nat registers + proved bounds); CL `peek` is not driven;
          the T-gen stretch of DESIGN (translating *CtrlRTL automatically) is not done: the concrete models are hand-written
          and tied by the register-level differential replay above.
